@@ -1280,26 +1280,119 @@ fn gen_lattice_request() -> (u8, u16, usize) {
 /// C03: every request is either transmitted as exactly its protocol encoding in one
 /// frame, or rejected with a non-I/O error with nothing transmitted.
 pub fn run_encoding(cfg: &ScenCfg, out: &mut RunOut) {
+    run_encoding_impl(cfg, out, false)
+}
+
+/// the same lattice over the serial channel: RTU frames, at most 256 bytes, correct CRC
+pub fn run_encoding_rtu(cfg: &ScenCfg, out: &mut RunOut) {
+    run_encoding_impl(cfg, out, true)
+}
+
+/// C14 (a): the public strategy object against model::retry (a pure state machine; included
+/// because the same model is used by the task-level checks)
+pub fn run_retry_object(_cfg: &ScenCfg, out: &mut RunOut) {
+    let secs = |s: u64| Duration::from_secs(s);
+    let lattice: [Duration; 10] = [
+        Duration::from_nanos(1),
+        Duration::from_millis(1),
+        Duration::from_millis(999),
+        secs(1),
+        secs(60),
+        secs(3600),
+        secs(1 << 40),
+        secs(u64::MAX / 2),
+        secs(u64::MAX / 2 + 1),
+        Duration::MAX,
+    ];
+    let a = lattice[choose(10) as usize];
+    let b = lattice[choose(10) as usize];
+    let (min, max) = if a <= b { (a, b) } else { (b, a) };
+    let n = 1 + choose(80) as usize;
+    let mut wl = 0u64;
+    hash_bytes(&mut wl, &min.as_nanos().to_le_bytes());
+    hash_bytes(&mut wl, &max.as_nanos().to_le_bytes());
+    let mut ops = Vec::new();
+    for _ in 0..n {
+        ops.push(weighted(&[6, 2, 2]) as u8);
+    }
+    hash_bytes(&mut wl, &ops);
+    let res = std::panic::catch_unwind(move || {
+        let mut real = doubling_retry_strategy(min, max);
+        let mut cur = min; // model: saturating doubling, capped
+        for (i, op) in ops.iter().enumerate() {
+            match op {
+                0 => {
+                    let got = real.after_failed_connect();
+                    if got != cur {
+                        return Err(format!("min={:?} max={:?}: call {} after_failed_connect returned {:?}, expected {:?}", min, max, i, got, cur));
+                    }
+                    cur = cur.checked_mul(2).unwrap_or(Duration::MAX).min(max);
+                }
+                1 => {
+                    let got = real.after_disconnect();
+                    if got != min {
+                        return Err(format!("min={:?} max={:?}: after_disconnect returned {:?}", min, max, got));
+                    }
+                }
+                _ => {
+                    real.reset();
+                    cur = min;
+                }
+            }
+        }
+        Ok(())
+    });
+    match res {
+        Ok(Ok(())) => {}
+        Ok(Err(e)) => out.violate("C14", "retry_object_sequence", e),
+        Err(p) => {
+            if !out.known("C14", "doubling_overflows_for_huge_max") {
+                out.violate("C14", "retry_object_panics", format!("min={:?} max={:?}: the strategy object panicked: {}", min, max, kernel::panic_message(&p)));
+            }
+        }
+    }
+    out.ops_checked = n as u64;
+    out.nontrivial = Some(wl);
+    out.sample = Some(json!({"scenario": "retry strategy object", "min_ns": min.as_nanos().to_string(), "max_ns": max.as_nanos().to_string(), "calls": n}));
+}
+
+fn run_encoding_impl(cfg: &ScenCfg, out: &mut RunOut, rtu: bool) {
     lockstep_kernel_cfg();
     let (dec_idx, decode) = pick_decode(&cfg.decode);
     let addr: SocketAddr = "10.0.0.9:502".parse().unwrap();
-    net::stub_listen(addr);
-    let opts = ClientOptions::default().decode_level(decode).max_queued_requests(4);
-    let rig = start_tcp_client(addr, (1000 * MS, 1000 * MS), opts);
+    let rig = if rtu {
+        simtokio::serial::add_line(RTU_PATH, simtokio::serial::OpenOutcome::Ok, true);
+        start_rtu_client(115200, (1000 * MS, 1000 * MS), decode, 4)
+    } else {
+        net::stub_listen(addr);
+        let opts = ClientOptions::default().decode_level(decode).max_queued_requests(4);
+        start_tcp_client(addr, (1000 * MS, 1000 * MS), opts)
+    };
     kernel::settle();
     spawn_cmd(rig.channel.as_ref().unwrap(), 0, 0);
     kernel::settle();
-    let peer = match net::stub_accept(addr) {
-        Some(p) => p,
-        None => {
-            out.violate("C13", "no_connection_established", "enabled channel did not connect".into());
+    let peer: Option<PeerEnd> = if rtu {
+        if !simtokio::serial::is_open(RTU_PATH) {
+            out.violate("C13", "no_connection_established", "enabled serial channel did not open the port".into());
             return;
+        }
+        None
+    } else {
+        match net::stub_accept(addr) {
+            Some(p) => Some(p),
+            None => {
+                out.violate("C13", "no_connection_established", "enabled channel did not connect".into());
+                return;
+            }
         }
     };
     if cfg.faults {
-        // flow control: the peer's window is small, writes complete in pieces
-        peer.set_capacity(64 + choose(300) as usize);
+        if let Some(p) = &peer {
+            // flow control: the peer's window is small, writes complete in pieces
+            p.set_capacity(64 + choose(300) as usize);
+        }
     }
+    let max_frame = if rtu { 256 } else { 260 };
     let n = 4 + choose(20) as usize;
     let mut last_tx: Option<u16> = None;
     let mut consumed_since: u16 = 0;
@@ -1337,7 +1430,14 @@ pub fn run_encoding(cfg: &ScenCfg, out: &mut RunOut) {
         let mut got = Vec::new();
         for _ in 0..40 {
             kernel::settle();
-            let part = peer.take_received();
+            if rtu {
+                // inter-character silence between consecutive frames
+                kernel::advance(2 * MS);
+            }
+            let part = match &peer {
+                Some(p) => p.take_received(),
+                None => simtokio::serial::line_take(RTU_PATH),
+            };
             if part.is_empty() {
                 break;
             }
@@ -1346,8 +1446,11 @@ pub fn run_encoding(cfg: &ScenCfg, out: &mut RunOut) {
         if samples.len() < 5 {
             samples.push(json!({"kind": kind, "start": start, "count": count, "unit": unit, "legal": legal, "wire_len": got.len()}));
         }
-        if got.len() > 260 {
-            out.violate("C03", "frame_longer_than_260", format!("kind={} start={} count={}: {} bytes were transmitted", kind, start, count, got.len()));
+        if got.len() > max_frame {
+            out.violate("C03", "frame_too_long", format!("kind={} start={} count={}: {} bytes were transmitted (maximum {})", kind, start, count, got.len(), max_frame));
+            if rtu {
+                out.violate("C06", "frame_too_long", format!("RTU frame of {} bytes emitted", got.len()));
+            }
             return;
         }
         if legal {
@@ -1360,8 +1463,8 @@ pub fn run_encoding(cfg: &ScenCfg, out: &mut RunOut) {
                     d >= 1 && d <= 1 + consumed_since
                 }
             };
-            let tx = if got.len() >= 2 { ((got[0] as u16) << 8) | got[1] as u16 } else { 0 };
-            let want = mbap_frame(tx, unit, &p);
+            let tx = if rtu { last_tx.map(|x| x.wrapping_add(1)).unwrap_or(0) } else if got.len() >= 2 { ((got[0] as u16) << 8) | got[1] as u16 } else { 0 };
+            let want = if rtu { crate::model::frame::rtu_frame(unit, &p) } else { mbap_frame(tx, unit, &p) };
             if got != want {
                 out.violate(
                     "C03",
@@ -1370,7 +1473,7 @@ pub fn run_encoding(cfg: &ScenCfg, out: &mut RunOut) {
                 );
                 return;
             }
-            if !tx_ok(tx) {
+            if !rtu && !tx_ok(tx) {
                 let d = format!("transaction id {} after {:?} ({} ids consumed by rejected requests)", tx, last_tx, consumed_since);
                 out.violate("C11", "tx_id_sequence", d.clone());
                 out.violate("C03", "tx_id_sequence", d);
@@ -1380,7 +1483,10 @@ pub fn run_encoding(cfg: &ScenCfg, out: &mut RunOut) {
             consumed_since = 0;
             // answer correctly; the request must succeed
             let r = correct_reply(&req);
-            peer.write(&mbap_frame(tx, unit, &r));
+            match &peer {
+                Some(p) => p.write(&mbap_frame(tx, unit, &r)),
+                None => simtokio::serial::line_write(RTU_PATH, &crate::model::frame::rtu_frame(unit, &r)),
+            }
             kernel::settle();
             let comps = rig.comps.lock().unwrap()[before..].to_vec();
             let want_out = match pdu::decode_reply(&req, &r) {
@@ -1415,7 +1521,10 @@ pub fn run_encoding(cfg: &ScenCfg, out: &mut RunOut) {
                 let tx = ((got[0] as u16) << 8) | got[1] as u16;
                 last_tx = Some(tx);
                 consumed_since = 0;
-                peer.write(&mbap_frame(tx, unit, &[req.fc() | 0x80, 3]));
+                match &peer {
+                    Some(p) => p.write(&mbap_frame(tx, unit, &[req.fc() | 0x80, 3])),
+                    None => simtokio::serial::line_write(RTU_PATH, &crate::model::frame::rtu_frame(unit, &[req.fc() | 0x80, 3])),
+                }
                 kernel::settle();
                 continue;
             }
@@ -1432,6 +1541,6 @@ pub fn run_encoding(cfg: &ScenCfg, out: &mut RunOut) {
         }
     }
     out.nontrivial = Some(wl);
-    out.sample = Some(json!({"scenario": "client encoding lattice (tcp)", "requests": samples, "decode_level_index": dec_idx}));
+    out.sample = Some(json!({"scenario": if rtu { "client encoding lattice (rtu)" } else { "client encoding lattice (tcp)" }, "requests": samples, "decode_level_index": dec_idx}));
     out.observable.extend(format!("{:?}", rig.comps.lock().unwrap()).into_bytes());
 }
